@@ -35,7 +35,7 @@ func runEtxQ(seed uint64, n int, outDir string, replay string) {
 			defer func() {
 				if p := recover(); p != nil {
 					o.Violate("etxq-panic", fmt.Sprintf("panic: %v at %s", p, stackTop()))
-					ans(fmt.Sprintf("panic %v", p))
+					o.Pad("panic %v", p)
 				}
 			}()
 			db := state.NewDatabase(rawdb.NewMemoryDatabase(log.Global))
